@@ -4,6 +4,7 @@ import (
 	"bytes"
 	"fmt"
 	stdhtml "html"
+	"math/big"
 	"regexp"
 	"strings"
 	"testing"
@@ -74,8 +75,22 @@ func clean(s string) string {
 // digits) is kept as text as the HTML standard prescribes; the standard library consumes it as U+FFFD.
 func decode(b []byte) string {
 	s := strings.NewReplacer("&#x;", "&amp;#x;", "&#X;", "&amp;#X;").Replace(string(b))
+	// the standard library accumulates the digits of a numeric reference in an int32 that wraps around
+	// ("&#x100000041;" decodes to "A" there): references beyond U+10FFFF are U+FFFD, decided here with math/big
+	s = numRefRe.ReplaceAllStringFunc(s, func(m string) string {
+		digits, base := strings.TrimSuffix(m[2:], ";"), 10
+		if digits[0] == 'x' || digits[0] == 'X' {
+			digits, base = digits[1:], 16
+		}
+		if v, ok := new(big.Int).SetString(digits, base); ok && v.Cmp(big.NewInt(0x10FFFF)) > 0 {
+			return "\uFFFD"
+		}
+		return m
+	})
 	return clean(stdhtml.UnescapeString(s))
 }
+
+var numRefRe = regexp.MustCompile(`&#([xX][0-9a-fA-F]+|[0-9]+);?`)
 
 func TestProp_Whitespace(t *testing.T) {
 	ev.Describe("whitespace", "strings of 0-12 fragments (whitespace runs of length 1-4 with/without line breaks, text, entities, non-ASCII); oracle: ReplaceMultipleWhitespace == regexp reference ([ \\t\\n\\f\\r]+ -> \\n if the run has \\n or \\r else space), nothing else changes; non-trivial = a run of >= 2 whitespace bytes")
